@@ -337,8 +337,12 @@ def streams(ctx):
                                     latest = msg.rsplit(" -> ", 1)[1]
                                     if vlib.hx(latest) not in dump:
                                         viol(f"published '{msg}' but no cache row holds {latest}", a + i)
-                                if "*" in failing_L:
-                                    viol(f"published '{msg}' although every latest-version read fails", a + i)
+                                # a dependency one of whose cache reads fails gets NO diagnostic (the error is not data)
+                                line_no = int(d.split("@")[1].split(":")[0])
+                                names = [vlib.unhx(x.split("|")[0]) for x in (parsed or "").split(";") if x and int(x.split("|")[5]) == line_no]
+                                failing_any = set(x.split(":")[1] for x in meta["faults"] if x[0] in "LTV")
+                                if f[0] in ("l.open", "l.change") and ("*" in failing_any or any(n in failing_any for n in names)):
+                                    viol(f"published '{msg}' for {names} although a cache read of that dependency fails (faults {meta['faults']}): a failed read was taken for data", a + i)
         return der
 
     def nt(c, o):
